@@ -9,6 +9,7 @@ import (
 	"os"
 	"sort"
 	"strings"
+	"sync/atomic"
 	"syscall"
 	"time"
 
@@ -409,10 +410,15 @@ func (s *Session) Exec(c Call) (res Res) {
 	case <-time.After(hangDelay):
 		res = NewRes("HANG")
 		s.Dead = true
+
+		atomic.AddInt32(&HangCount, 1)
 	}
 
 	return res
 }
+
+// HangCount counts the calls that did not return: each leaves a goroutine spinning, so a run gives up after a few.
+var HangCount int32
 
 // hangDelay is how long a single call of an in-memory file system may take before it counts as a hang.
 const hangDelay = 20 * time.Second
